@@ -65,6 +65,9 @@ func main() {
 	root := scratchRoot()
 	defer os.RemoveAll(root)
 
+	if P.Bool("snapshots") {
+		scen.SnapshotProfile(*seed, P)
+	}
 	r := rand.New(rand.NewSource(*seed))
 	m := mon.New()
 	m.Keep = true
